@@ -63,6 +63,8 @@ type ctxT struct {
 	// further Coq terms of the case being run (same id: a replay of the case reproduces all of them)
 	extra []string
 	sub7  int // generator: 1..4 pins the sub-variant of parent shape 7 (0: random)
+	sub8  int // generator: 1..4 pins the variant of parent shape 8 (after the fork)
+	allShareDevs bool // generator: every share deviation is part of a sampled sweep of shape 8
 }
 
 func (c *ctxT) next() uint64 { c.id++; return c.id }
@@ -92,6 +94,10 @@ func (c *ctxT) run(cs Case) {
 			term = c.runDiff(cs)
 		case "basefee":
 			term = c.runBaseFee(cs)
+		case "share":
+			term = c.runShare(cs)
+		case "basefeex":
+			term = c.runBaseFeeX(cs)
 		case "order":
 			term = c.runOrder(cs)
 		case "totals":
